@@ -2586,9 +2586,9 @@ class Composite(ArmiObject):
 
     def remove(self, obj):
         """Remove a particular child."""
+        self._children.remove(obj)
         obj.parent = None
         obj.spatialLocator = obj.spatialLocator.detachedCopy()
-        self._children.remove(obj)
 
     def moveTo(self, locator):
         """Move to specific location in parent. Often in a grid."""
